@@ -472,6 +472,11 @@ ORACLE_EXTRA = [
     'raise ValueError()\n', 'def f():\n    raise KeyError()\n', 'ValueError = E\nraise ValueError()\n', 'def f(ValueError):\n    raise ValueError()\n', 'raise ValueError(1)\n', 'raise E()\n',
     'def f():\n    raise TypeError() from None\n', 'import ValueError\nraise ValueError()\n',
     '"""doc"""\nprint(__doc__)\n', '"""doc"""\ndef f():\n    "fdoc"\n    return __doc__\n', '"""doc"""\nimport m\nprint(m.__doc__)\n', '"""doc"""\nx = 1\n',
+    # every way a module can mention __doc__: augmented assignment (reads the old value), store, delete, attribute store, global, in a branch, in a class, formatted
+    '"""doc"""\n__doc__ += " more"\n', '"""doc"""\nif x:\n    __doc__ += "a"\nelse:\n    __doc__ += "b"\n', '"""doc"""\n__doc__ = "other"\n', '"""doc"""\ndel __doc__\n',
+    '"""doc"""\ndef f():\n    global __doc__\n    __doc__ += "x"\n', '"""doc"""\nimport m\nm.__doc__ = "set"\n', '"""doc"""\nimport m\nm.__doc__ += "aug"\n', '"""doc"""\nclass C:\n    "cdoc"\n    __doc__ += "x"\n',
+    '"""doc"""\nx = f"{__doc__}"\n', '"""doc"""\nx = [__doc__ for _ in y]\n', '"""doc"""\ndef f(d=__doc__):\n    "fdoc"\n    return d\n', '"""doc"""\nfor __doc__ in y:\n    pass\n',
+    '"""doc"""\nwith a as __doc__:\n    pass\n', '"""doc"""\n(__doc__ := 1)\n', '"""doc"""\nimport m as __doc__\n', '"""doc"""\ndef f():\n    "fdoc"\n    f.__doc__ += "z"\n',
     'x: int\ny: int = 2\ndef f():\n    z: int\n    z = 1\n    return z\n', 'class C:\n    a: int\n    b: int = 1\n    def m(self, q: int) -> int:\n        r: int = q\n        return r\n',
 ]
 
